@@ -299,6 +299,35 @@ func runScript(t *testing.T, run *vt.Run, c vt.CaseID, rng *rand.Rand, exhaustiv
 			})
 		}
 		synctest.Wait()
+		// in half of the cases every node already holds the key with unrelated entries (a node that has no value
+		// at all stores the first update without merging): the tombstone then reaches replicas that know the ring
+		// but have never seen the entry
+		bystanders := rng.IntN(2) == 0
+		if exhaustiveOrder != nil {
+			bystanders = c.Idx%12 >= 6
+		}
+		if bystanders {
+			for j := 0; j < n; j++ {
+				j := j
+				_ = net.Client(j, k.codec).CAS(context.Background(), k.key, func(in interface{}) (interface{}, bool, error) {
+					now := time.Now()
+					if k.key == simnet.RingKey {
+						d := ring.GetOrCreateRingDesc(in)
+						d.AddIngester(fmt.Sprintf("by%d", j), fmt.Sprintf("by%d", j), "z", []uint32{uint32(9000 + j)}, ring.ACTIVE, now, false, time.Time{}, nil)
+						return d, false, nil
+					}
+					d := ring.GetOrCreatePartitionRingDesc(in)
+					d.Partitions[int32(20+j)] = ring.PartitionDesc{Id: int32(20 + j), Tokens: []uint32{uint32(9000 + j)}, State: ring.PartitionActive, StateTimestamp: now.Unix()}
+					d.AddOrUpdateOwner(fmt.Sprintf("oby%d", j), ring.OwnerActive, int32(20+j), now)
+					return d, false, nil
+				})
+				synctest.Wait()
+				net.Collect(j) // the bystander broadcasts are not part of the script
+			}
+			s.stats["scripts_with_bystander_entries"]++
+			s.log("every node holds the key with an unrelated entry")
+			time.Sleep(time.Second)
+		}
 		cas := func(node int, remove bool) bool {
 			var u *upd
 			err := net.Client(node, k.codec).CAS(context.Background(), k.key, func(in interface{}) (interface{}, bool, error) {
@@ -497,7 +526,7 @@ func start() time.Time { return time.Date(2000, 1, 1, 0, 0, 0, 0, time.UTC) }
 
 func TestC04(t *testing.T) {
 	run := vt.NewRun("C04", "exploration")
-	run.SetRule("case = one script on 2-4 gossip KV nodes (detached from the transport) under the synctest virtual clock, for an instance of the instance ring, an owner or a partition of the partition ring: heartbeats/state changes, removal by a local update on any node (same second as the last heartbeat or seconds later), every message and full-state dump ever produced kept in a pool and (re)delivered to any node at any later time below the tombstone retention, full-state exchanges; after every step each node's reader and watcher are compared with the newest update (newest stamp, removal wins a tie) among what that node has merged: a removed entry never reappears, readers and watchers never see a tombstone, the stored state keeps the tombstone while younger than the retention, the first merge of a tombstone queues a broadcast carrying it; after the retention stale deliveries may resurrect (not judged). A second generator enumerates all delivery sequences (length <= 4, with repetition) of {heartbeat1, heartbeat2, removal, full state} to an observer node. non-trivial = the script contains a removal; distinct by journal.")
+	run.SetRule("case = one script on 2-4 gossip KV nodes (detached from the transport) under the synctest virtual clock, for an instance of the instance ring, an owner or a partition of the partition ring: heartbeats/state changes, removal by a local update on any node (same second as the last heartbeat or seconds later), every message and full-state dump ever produced kept in a pool and (re)delivered to any node at any later time below the tombstone retention, full-state exchanges; after every step each node's reader and watcher are compared with the newest update (newest stamp, removal wins a tie) among what that node has merged: a removed entry never reappears, readers and watchers never see a tombstone, the stored state keeps the tombstone while younger than the retention, the first merge of a tombstone queues a broadcast carrying it; after the retention stale deliveries may resurrect (not judged). A second generator enumerates all delivery sequences (length <= 4, with repetition) of {heartbeat1, heartbeat2, removal, full state} to an observer node; in half of all cases every node already holds the key with unrelated entries (a node without any value stores the first update without merging). non-trivial = the script contains a removal; distinct by journal.")
 	// exhaustive delivery sequences over 4 messages, length 1..4
 	var seqs [][]int
 	var rec func(cur []int)
@@ -514,7 +543,7 @@ func TestC04(t *testing.T) {
 	}
 	rec(nil)
 	run.SetExtra("enumerated_delivery_sequences", len(seqs))
-	reps := 6 // x3 entry kinds x2 removal timing
+	reps := 12 // x3 entry kinds x2 removal timing x2 (nodes empty / nodes already holding the key with unrelated entries)
 	run.ForEachT(t, "orders", len(seqs)*reps, func(t *testing.T, c vt.CaseID, rng *rand.Rand, s *vt.Slot) {
 		s.Enter(c, "crash/orders")
 		runScript(t, run, c, rng, seqs[int(c.Idx)/reps])
